@@ -1610,6 +1610,14 @@ def _sparse_attr(it, o, attr):
         return B(lambda: _mk_sparse(CArr(d.data.copy()), attr[2:]))
     if attr == 'dot':
         return B(lambda x: A.matmul(it.ctx, d, x.fields['dense'] if isinstance(x, Obj) and x.tag == 'sparse' else x))
+    if attr == 'sum':
+        def ssum(axis=None):
+            r = reduce_axis(it.ctx, V.add, d, axis, 0)
+            if axis is None:
+                return r
+            # scipy returns an np.matrix: (n,1) for axis=1, (1,m) for axis=0
+            return CArr(r.data.reshape((-1, 1)) if axis in (1, -1) else r.data.reshape((1, -1)))
+        return B(ssum)
     if attr == 'real':
         return _mk_sparse(elementwise(it.ctx, V.real_part, d), o.fields['sparse_format'])
     if attr == 'imag':
@@ -1879,3 +1887,54 @@ def np_append(it, a, v, axis=None):
     if isinstance(fa, CArr) and fa.size == 0:
         return A.snapshot(fv) if isinstance(fv, LArr) else CArr(fv.data.copy(), fv._kind)
     return np_concatenate(it, [fa, fv])
+
+
+# ------------------------------------------------------------------------------------------------ scipy.signal (concrete shapes, symbolic entries)
+def _conv_nd(it, a, w, mode, correlate):
+    """N-D convolution / cross-correlation with real weights.
+    convolve(a, w, 'valid')[k] = sum_j a[k + K - 1 - j] w[j]  (per axis);  correlate(a, w, 'full')[m] = sum_j a[m + j - (K-1)] w[j] (zero outside)"""
+    a = a if is_arr(a) else to_carr(a)
+    w = w if is_arr(w) else to_carr(w)
+    if not (isinstance(a, CArr) and isinstance(w, CArr)):
+        raise Unsupported('scipy.signal.convolve/correlate on symbolic-shape arrays (linear-operator contract needed)')
+    if a.ndim != w.ndim:
+        raise PyExc('ValueError', 'in1 and in2 should have the same dimensionality')
+    Ash, K = a.shape, w.shape
+    if mode == 'valid':
+        if not all(x >= y for x, y in zip(Ash, K)):
+            if all(y >= x for x, y in zip(Ash, K)):
+                raise Unsupported("'valid' convolution with the kernel larger than the signal (operands swap)")
+            raise PyExc('ValueError', "For 'valid' mode, one must be at least as large as the other in every dimension")
+        out_shape = tuple(x - y + 1 for x, y in zip(Ash, K))
+        off = tuple(0 for _ in K)
+    elif mode == 'full':
+        out_shape = tuple(x + y - 1 for x, y in zip(Ash, K))
+        off = tuple(-(y - 1) for y in K)
+    elif mode == 'same':
+        out_shape = tuple(Ash)
+        off = tuple(-((y - 1) // 2) for y in K)
+    else:
+        raise PyExc('ValueError', 'mode')
+    out = np.empty(out_shape, dtype=object)
+    for o in np.ndindex(*out_shape):
+        acc = 0
+        for j in np.ndindex(*K):
+            if correlate:
+                src = tuple(o[d] + off[d] + j[d] for d in range(len(K)))
+            else:
+                # convolution = correlation with the flipped kernel
+                src = tuple(o[d] + off[d] + (K[d] - 1 - j[d]) for d in range(len(K)))
+            if all(0 <= src[d] < Ash[d] for d in range(len(K))):
+                acc = V.add(acc, V.mul(a.data[src], w.data[j] if not correlate else V.conj(w.data[j])))
+        out[o] = acc
+    return CArr(out)
+
+
+@np_fn('convolve', ns='spsig')
+def spsig_convolve(it, a, w, mode='full', **k):
+    return _conv_nd(it, a, w, mode, correlate=False)
+
+
+@np_fn('correlate', ns='spsig')
+def spsig_correlate(it, a, w, mode='full', **k):
+    return _conv_nd(it, a, w, mode, correlate=True)
